@@ -38,7 +38,16 @@ RULE = ('fit: full product lag 1..4 x builder {normalize,transpose,mle} x trim x
         'ndarray) / matrices; ensemble starts as float64, float32, int64/int32 one-hot, integer walker '
         'counts and Python lists, float64/float32 matrices, dense/csr/coo, with and without an '
         'observable, every returned row compared with repeated float64 left multiplication.  '
-        'distinct by canonical input')
+        'families: more than 255 states (300/520/1100, narrow assignment dtypes, model skipped for size), '
+        'hundreds of trajectories of 1..4 frames, trimming down to one state, a single trajectory not longer '
+        'than the lag, rows of -1 only, -1 inside rows, pendant / self-count-only / never-visited states; '
+        'MSM.from_assignments, numpy-integer lag_time and n_eigs; save with custom file names, '
+        'save->load->save->load, save(force=True) over an existing directory; history: one estimator '
+        'fitted on A, then B, then B again, a second estimator, results held by the caller, the caller\'s '
+        'array overwritten afterwards, spectral/propagation functions called twice on the same objects; '
+        'eig kinds metastable / twin-blocks (second eigenvalue within 1e-5..1e-8 of one, eigenvalue pairs '
+        'split by the coupling; vector comparisons conditioned on the gap, residuals not) and the 1-state '
+        'matrix; metastable trajectories for the timescales.  distinct by canonical input')
 ASSUMPTIONS = [
     'LAPACK (scipy.linalg.eig) returns the same decomposition for the same input within one process '
     '(used to feed the model the raw decomposition the library post-processes)',
@@ -513,7 +522,7 @@ def check_saveload(ctx, case, m, model=None):
     base = tempfile.mkdtemp(prefix='c16_msm_')
     try:
         path = os.path.join(base, 'model')
-        stage, zero_d = 'save and load', False
+        stage = 'save and load'
         try:
             with quiet():
                 if case.get('filenames'):
@@ -525,15 +534,11 @@ def check_saveload(ctx, case, m, model=None):
                 if case.get('resave'):
                     # second generation: what was loaded is saved and loaded again
                     stage = 'second save of the loaded model'
-                    zero_d = np.ndim(m2.eq_probs_) == 0
                     path2 = os.path.join(base, 'model2')
                     m2.save(path2)
                     m2 = MSM.load(path2)
         except Exception as e:  # noqa
-            key = None
-            if stage.startswith('second') and zero_d and isinstance(e, ValueError):
-                key = 'load-one-state-eq-probs-0d'       # np.loadtxt gives a 0-d array for one state
-            ctx.violation('MSM.save / MSM.load raised %s (%s): %s' % (type(e).__name__, stage, str(e)[:200]), rep, key=key)
+            ctx.violation('MSM.save / MSM.load raised %s (%s): %s' % (type(e).__name__, stage, str(e)[:200]), rep)
             return
     finally:
         shutil.rmtree(base, ignore_errors=True)
@@ -557,7 +562,7 @@ def check_saveload(ctx, case, m, model=None):
     p1, p2 = dense(m.tprobs_), dense(m2.tprobs_)
     if p1.shape != p2.shape or not np.array_equal(p1, p2):
         bad.append('tprobs_ (max abs diff %.3g)' % (np.max(np.abs(p1 - p2)) if p1.shape == p2.shape else -1))
-    e1, e2 = np.ravel(np.asarray(m.eq_probs_, dtype=float)), np.ravel(np.asarray(m2.eq_probs_, dtype=float))
+    e1, e2 = np.asarray(m.eq_probs_, dtype=float), np.asarray(m2.eq_probs_, dtype=float)
     if e1.shape != e2.shape or not np.array_equal(e1, e2, equal_nan=True):
         bad.append('eq_probs_')
     if mapping_dict(m.mapping_) != mapping_dict(m2.mapping_):
@@ -603,8 +608,7 @@ def check_save_force(ctx, case, m):
                 m.save(path, force=True)
                 m2 = MSM.load(path)
         except Exception as e:  # noqa
-            ctx.violation('MSM.save(path, force=True) over an existing model directory raised %s' % type(e).__name__,
-                          rep, key='save-force-existing-dir' if isinstance(e, OSError) else None)
+            ctx.violation('MSM.save(path, force=True) over an existing model directory raised %s' % type(e).__name__, rep)
             return
         if mapping_dict(m2.mapping_) != mapping_dict(m.mapping_) or not np.array_equal(dense(m2.tprobs_), dense(m.tprobs_)):
             ctx.violation('MSM.save(force=True) then load gives a different model', rep)
